@@ -1,13 +1,13 @@
 #!/bin/sh
 # Runs every check (quick by default) against /repo and reports exit codes; evidence files are rewritten.
-# usage: run_all.sh [tier] [ids...]
+# usage: [VCHECK_TIMEOUT=seconds] run_all.sh [tier] [ids...]
 tier=${1:-quick}
 [ $# -gt 0 ] && shift
 ids=${*:-C01 C02 C03 C04 C05 C06 C07 C08 C09 C10 C11 C12 C13 C14 C15 C16 C17 C18 C19 C20}
 cd "$(dirname "$0")/.."
 for p in $ids; do
   s=$(date +%s)
-  ./vcheck $p --tier $tier > /var/tmp/vcheck-$tier-$p.log 2>&1
+  ${VCHECK_TIMEOUT:+timeout $VCHECK_TIMEOUT} ./vcheck $p --tier $tier > /var/tmp/vcheck-$tier-$p.log 2>&1
   rc=$?
   e=$(date +%s)
   echo "$p rc=$rc $((e-s))s $(grep -E '^(OK|VIOLATION|MACHINERY)' /var/tmp/vcheck-$tier-$p.log | head -2 | tr '\n' ' ' | cut -c1-150)"
